@@ -57,7 +57,7 @@ Theorem C03_one_decl_per_declarator : forall (P: Type) ds spec it tns (s: pstate
 Proof. exact build_loop_one_per_declarator. Qed.
 Print Assumptions C03_one_decl_per_declarator.
 ''')
-mk("C05","statement ASTs mirror C's statement nesting and source order","StmtExamples"," AstSpec StmtProofs ElseProofs StmtShape",
+mk("C05","statement ASTs mirror C's statement nesting and source order","StmtExamples"," AstSpec StmtProofs ElseProofs StmtShape ParserBase ParserMain StreamLib RoundTrip RoundTripX StmtTrip",
 '''(* fix_switch_cases: for a switch body of ANY length whose label chains have ANY depth, the regrouped
    body is exactly: statements under the nearest preceding label, consecutive labels as siblings,
    statements before the first label in front (regroup_spec) - nothing lost, duplicated or reordered *)
@@ -102,6 +102,20 @@ Theorem C05_label_attaches_to_next_statement : forall (P: Type) f,
        (p_labeled_statement P (S f)).
 Proof. exact label_attaches_to_next_statement. Qed.
 Print Assumptions C05_label_attaches_to_next_statement.
+
+(* COMPLETENESS at token level (proofs/StmtTrip.v): every brace-free statement x - expression statements, `;`, return /
+   break / continue / goto, if with and without else, while, do-while, for with any of its clauses absent, nested in any
+   way - written as the token sequence [stoks rp x], is parsed by p_pragmacomp_or_statement (the production behind every
+   sub-statement position) to exactly x: each `else` goes to the nearest if that can take it, loop bodies and branches are
+   exactly one statement, nothing is lost or reordered.  Side conditions = C's dangling-else rule (swf, and no `else` after
+   an if without else). *)
+Theorem C05_statements_parse_back : forall (P: Type) rp (x: StmtTrip.st), StmtTrip.swf x ->
+  forall (s: ParserBase.pstate P) le stop l0, RoundTrip.Spell P le (StmtTrip.stoks rp x) -> StreamLib.Up P s (le ++ stop :: l0) ->
+  (StmtTrip.sopen x = true -> kind_eqb (ParserBase.tk stop) K_ELSE = false) ->
+  exists f0 N s', (forall f, (f0 <= f)%nat -> ParserMain.p_pragmacomp_or_statement P f s = ParserBase.Ok (N, s')) /\\
+                  StreamLib.Up P s' (stop :: l0) /\\ RoundTrip.strip N = StmtTrip.embs x.
+Proof. exact StmtTrip.parse_of_generated_statement. Qed.
+Print Assumptions C05_statements_parse_back.
 ''')
 mk("C06","parse() either returns a FileAST or raises ParseError - nothing else","CrashExamples"," LexerProofs LexNoCrash",
 '''(* termination of the lexing half: tokenising any text finishes within |text|+1 iterations *)
@@ -174,7 +188,7 @@ Theorem C16_binary_expression_cost : forall (P: Type) f lhs0 s t s',
 Proof. exact binary_expression_cost. Qed.
 Print Assumptions C16_binary_expression_cost.
 ''')
-mk("C07","generated C re-parses to the same AST (parse . generate . parse = parse)","GenExamples"," ParserTables GenTables CSpec TableProofs Generator ParamProofs GenParam ClimbProofs GenParen GenBinop ParserBase ParserMain StreamLib RoundTrip RoundTripGen RoundTripX GenExpr",
+mk("C07","generated C re-parses to the same AST (parse . generate . parse = parse)","GenExamples"," ParserTables GenTables CSpec TableProofs Generator ParamProofs GenParam ClimbProofs GenParen GenBinop ParserBase ParserMain StreamLib RoundTrip RoundTripGen RoundTripX GenExpr StmtTrip GenStmt",
 '''(* CGenerator never looks at coordinates: for EVERY AST, every renaming or erasure of its coordinates
    leaves the generated text (and the crash / final-indentation outcome) unchanged - by parametricity
    of the generator model (all visit_* methods) in the coordinate type *)
@@ -273,6 +287,35 @@ Example C07_expression_example :
                              K_LPAREN; K_LPAREN; K_ID; K_RPAREN; K_CONDOP; K_LPAREN; K_ID; K_RPAREN; K_COLON; K_LPAREN; K_ID; K_RPAREN; K_RPAREN;
                              K_COMMA; K_ID; K_LPAREN; K_INT_CONST_DEC; K_COMMA; K_LPAREN; K_ID; K_COMMA; K_ID; K_RPAREN; K_RPAREN].
 Proof. exact expression_example. Qed.
+
+(* STATEMENTS without braces over that expression language: expression statements, `;`, return / break / continue / goto,
+   if with and without else, while, do-while, for with every clause present or absent, nested in any way.  Parser side:
+   whenever p_pragmacomp_or_statement (the production behind every sub-statement position) finds the tokens [stoks rp x]
+   of the generated text, it returns exactly x.  The only side conditions are C's own dangling-else rule: in swf the
+   then-branch of an if WITH an else does not end in an if without one (CGenerator adds no braces), and an if without
+   else is not followed by the token `else`. *)
+Theorem C07_parse_of_generated_statement : forall (P: Type) rp (x: st), swf x ->
+  forall (s: ParserBase.pstate P) le stop l0, Spell P le (stoks rp x) -> Up P s (le ++ stop :: l0) ->
+  (sopen x = true -> kind_eqb (tk stop) K_ELSE = false) ->
+  exists f0 N s', (forall f, (f0 <= f)%nat -> p_pragmacomp_or_statement P f s = Ok (N, s')) /\\ Up P s' (stop :: l0) /\\ strip N = embs x.
+Proof. exact parse_of_generated_statement. Qed.
+Print Assumptions C07_parse_of_generated_statement.
+
+(* generator side: _generate_stmt(add_indent=True) prints [gst rp lv x] at indentation level lv and restores the level *)
+Theorem C07_generator_prints_statement : forall (C: Type) rp (x: st), swf x -> forall fuel lv, (cost x < fuel)%nat ->
+  generate_stmt C rp fuel (embS C x) true lv = GOk (gst rp lv x, lv).
+Proof. exact gst_prints. Qed.
+Print Assumptions C07_generator_prints_statement.
+
+(* ... and that text, blanks and newlines removed, is the concatenation of the spellings of [stoks rp x] *)
+Theorem C07_statement_text_is_its_tokens : forall rp (x: st), sexprs (eok rp) x -> forall lv, despace2 (gst rp lv x) = spell (stoks rp x).
+Proof. intros rp x Hx lv. rewrite gst_vtxt. exact (gst_tokens rp (ssize x) x (le_n _) Hx lv). Qed.
+Print Assumptions C07_statement_text_is_its_tokens.
+
+(* non-vacuity: a for loop over an if / else-if ladder with return, break and a do-while *)
+Example C07_statement_example :
+  swf ex_s /\\ exists t, generate_stmt nat false 60 (embS nat ex_s) true Z0 = GOk (t, Z0) /\\ despace2 t = spell (stoks false ex_s).
+Proof. split; [exact (proj1 statement_example)|]. eexists. split; [exact (proj2 statement_example)|vm_compute; reflexivity]. Qed.
 ''')
 mk("C08","regenerated C means the same as the original to a C compiler","RegenExamples"," Generator ParamProofs GenParam",
 '''(* what the generator emits does not depend on coordinates (all ASTs) - see C07 *)
